@@ -97,3 +97,38 @@ pub fn rpc_error(i: usize, severity: &str, rich: bool) -> String {
     };
     format!("<rpc-error><error-type>protocol</error-type><error-tag>{tag}</error-tag><error-severity>{severity}</error-severity><error-message>m{i}</error-message>{extra}</rpc-error>")
 }
+
+/// Run the agent's real `<get-config>` fetch (library readers + agent readers) on a fresh session,
+/// answering with `reply` (a complete rpc-reply message, message-id is patched in). Returns a
+/// Debug rendering of the value, "ERR: .." for a failure, "STALLED" when nothing resolves.
+pub fn agent_fetch(candidates: bool, reply_template: &str) -> String {
+    use bgpfu_junos_agent::verif::{request_candidates, request_installed};
+    let mut env = match establish(&std_hello(&[mem::CAP_JUNOS, "urn:ietf:params:netconf:capability:candidate:1.0"])) {
+        Ok(e) => e,
+        Err(e) => return format!("ERR: establish {e}"),
+    };
+    let before = env.wire.sent_count();
+    macro_rules! go {
+        ($f:ident) => {{
+            let fut = match drive($f(&mut env.session), 10_000) {
+                Some(Ok(f)) => f,
+                Some(Err(e)) => return format!("ERR: request {e}"),
+                None => return "STALLED".into(),
+            };
+            let sent = env.wire.sent_text(before).unwrap_or_default();
+            let id = message_id_of(&sent).unwrap_or_default();
+            env.wire.deliver(reply_template.replace("@ID@", &id));
+            env.wire.lock().closed = true;
+            match drive(fut, 1_000_000) {
+                Some(Ok(v)) => format!("OK {v:?}"),
+                Some(Err(e)) => format!("ERR: {e}"),
+                None => "STALLED".into(),
+            }
+        }};
+    }
+    if candidates {
+        go!(request_candidates)
+    } else {
+        go!(request_installed)
+    }
+}
